@@ -1,5 +1,44 @@
-"""Replay searches for the non-formatter units (filled in per unit)."""
+"""Replay searches for the non-formatter units: exhaustive / catalogue runs of the REAL crates
+through their public API (replay/src/more.rs).  An aid, never the decider."""
+import re
+import subprocess
+
+from .replay import _run
+
+PRIM_INDEX = {'bool': 0, 'char': 1, 'str': 2, 'u8': 3, 'u16': 4, 'u32': 5, 'u64': 6, 'u128': 7, 'u256': 8,
+              'i8': 9, 'i16': 10, 'i32': 11, 'i64': 12, 'i128': 13, 'i256': 14}
+
+
+def args_for(unit, failure):
+    item = ((failure.get('where') or {}).get('origin') or {}).get('item', '')
+    if unit == 'U-REACH':
+        return ['c08-reach']
+    if unit == 'U-COMPACTAS' or unit in ('kani:uint_predicate_table', 'kani:compact_as_unnamed_upto3'):
+        return ['c08-compactas']
+    if unit == 'U-SANITY' or unit == 'kani:sanity_pass_upto4':
+        return ['c10-sanity']
+    if unit == 'U-RESOLVE':
+        return ['c10-resolve']
+    if unit.startswith('kani:contains_type_path') or unit == 'U-CONTAINS':
+        return ['c11-contains']
+    if unit == 'kani:primnames_table':
+        return ['c13-primnames']
+    m = re.match(r'kani:primex_([a-z0-9]+)', unit)
+    if m:
+        return ['c12-primex', '300', str(PRIM_INDEX[m.group(1)])]
+    return None
 
 
 def search(tool, pid, unit, failure, tier, seed):
-    return {'found': False, 'tried': ['no concrete search implemented for unit %s' % unit]}
+    a = args_for(unit, failure)
+    if a is None:
+        return {'found': False, 'tried': ['no concrete search implemented for unit %s' % unit]}
+    try:
+        rc, js = _run(tool, a, 1500)
+    except subprocess.TimeoutExpired:
+        return {'found': False, 'tried': ['%s timed out' % ' '.join(a)]}
+    if js.get('found'):
+        return {'found': True, 'input_id': '%s:%s' % (a[0], js.get('input')), 'replay_args': a,
+                'describe': '%s: %s' % (js.get('input'), js.get('violations')), 'violations': js.get('violations'),
+                'tried': ['%s -> tried %s' % (' '.join(a), js.get('tried'))]}
+    return {'found': False, 'tried': ['%s -> tried %s inputs on the real code, none fails' % (' '.join(a), js.get('tried'))]}
